@@ -384,7 +384,7 @@ func init() {
 	explore.Register(&explore.Check{
 		ID:         "C16",
 		Level:      "exploration",
-		ShardDepth: 4,
+		ShardDepth: 6,
 		Body:       body,
 		Rule: "option under test with every attribute vector {short only, long only, both} x description? x default {none, tag, tag+mask, tag+mask '-'} x env? x choices? x value-name? x hidden? (spelled yes / False / NO) x required? (768 vectors; defaults, masks and descriptions contain per-cent signs; without a default also as a bool-kinded Unmarshaler type) " +
 			"x 10 placements (parser group, namespaced subgroup with env-namespace, hidden subgroup, command, command's group, hidden command, sub-subcommand, sibling command, subgroup nested in the env-namespaced subgroup without / with its own env-namespace) x 5 active chains (none, add, add deep, rm, the hidden command) " +
@@ -394,7 +394,7 @@ func init() {
 		Assumptions:  []string{"not demanded of the man page: choices, positional arguments, env beside a default (man.go never rendered them)", "help of an active hidden command is not defined by the statement and is skipped"},
 		RequiredHits: []string{"visible|help", "invisible|help", "visible|man", "invisible|man"},
 		Bound:        [2]string{"complete product", "complete product"},
-		BudgetS:      [2]int{100, 600},
+		BudgetS:      [2]int{170, 600},
 	})
 }
 
